@@ -4,6 +4,7 @@
 package rig
 
 import (
+	"net/http"
 	"net/http/httptest"
 	"sync"
 	"time"
@@ -117,3 +118,20 @@ func (d *ChaosDebugger) Log(main string, v ...any) {
 }
 func (d *ChaosDebugger) WithContext(string) sio.Debugger                       { return d }
 func (d *ChaosDebugger) WithDynamicContext(string, func() string) sio.Debugger { return d }
+
+// SlowRT is an http.RoundTripper (ClientConfig.HTTPTransport, public API) on which every request spends D before it is
+// handed to the real transport - connection set-up latency, as a client behind a slow proxy or resolver sees it. The
+// request body is not read during that time.
+type SlowRT struct {
+	D    time.Duration
+	Base http.RoundTripper
+}
+
+func (t *SlowRT) RoundTrip(r *http.Request) (*http.Response, error) {
+	time.Sleep(t.D)
+	b := t.Base
+	if b == nil {
+		b = http.DefaultTransport
+	}
+	return b.RoundTrip(r)
+}
